@@ -366,6 +366,7 @@ func c10IdleExec(cs c10IdleCase) (*fw.Violation, *harness.Server) {
 }
 
 func runC10(c *fw.Ctx) {
+	runSpxFamily(c, "C10")
 	thorough := c.Tier == "thorough"
 	var item int64
 	sampled := 0
